@@ -80,6 +80,14 @@ def generate():
                         if isinstance(c, ast.Call):
                             calls_before.append(U(c.func))
                 break
+    # the command line: how `--blacklist` / `--whitelist` of the exmod sub-parser collect their values (every occurrence must count)
+    cli = []
+    mtree = ast.parse(open(os.path.join(REPO, "cdd", "__main__.py")).read())
+    for c in ast.walk(mtree):
+        if isinstance(c, ast.Call) and isinstance(c.func, ast.Attribute) and c.func.attr == "add_argument" and U(c.func.value) == "exmod_parser" \
+                and c.args and isinstance(c.args[0], ast.Constant) and c.args[0].value in ("--blacklist", "--whitelist"):
+            kws = sorted("%s=%s" % (k.arg, U(k.value)) for k in c.keywords if k.arg not in ("help", "dest", "metavar"))
+            cli.append((" ".join(a.value for a in c.args if isinstance(a, ast.Constant)), ", ".join(kws)))
     text = ["(* GENERATED by translate/gate.py from /repo/cdd/compound/exmod.py -- do not edit. *)",
             "From Coq Require Import List String.", "Import ListNotations.", "From CDD Require Import Gate.",
             "Local Open Scope string_scope.", "",
@@ -87,5 +95,7 @@ def generate():
             "Definition gate_guards_return : bool := %s." % ("true" if guarded else "false"),
             "Definition list_normalisation : string := %s." % coq_string(norm),
             "Definition mod_path_expr : string := %s." % coq_string(modpath),
-            "Definition calls_before_gate : list string := [%s]." % "; ".join(coq_string(c) for c in sorted(set(calls_before))), ""]
-    return {"ExmodGate.v": "\n".join(text)}, {"gate": gate, "guarded": guarded, "normalisation": norm, "calls_before": sorted(set(calls_before))}
+            "Definition calls_before_gate : list string := [%s]." % "; ".join(coq_string(c) for c in sorted(set(calls_before))),
+            "(* exmod_parser.add_argument(<option>, <keywords other than help>) of cdd/__main__.py *)",
+            "Definition cli_list_options : list (string * string) := [%s]." % "; ".join("(%s, %s)" % (coq_string(a), coq_string(b)) for a, b in sorted(cli)), ""]
+    return {"ExmodGate.v": "\n".join(text)}, {"gate": gate, "guarded": guarded, "normalisation": norm, "calls_before": sorted(set(calls_before)), "cli_list_options": sorted(cli)}
